@@ -26,6 +26,9 @@ type C03Case struct {
 	Sched  wire.Sched    `json:"schedule"`
 	SkipP  bool          `json:"skip_parent,omitempty"`
 	Format string        `json:"format,omitempty"` // -f value
+	// Verbose: debug logging on ("-v" flag, or "env": BKL_DEBUG=1) — an
+	// observer that writes to stderr and must not change the result
+	Verbose string `json:"verbose,omitempty"`
 	// Linear is set when the chain is a pure filename chain (eligible for the
 	// $parent-equivalence transformation)
 	Linear bool     `json:"linear,omitempty"`
@@ -45,6 +48,9 @@ func genC03(r *gen.Rand) *C03Case {
 	w := &c.World
 	w.Dirs = []string{c03Dir}
 	c.Sched = wire.Sched{Mode: r.Pick("Hash", "Hash", "Desc", "Rot"), Seed: r.U64() >> 1, Coin: 0.5, Rot: r.Range(1, 5)}
+	if r.Chance(0.1) {
+		c.Verbose = r.Pick("-v", "env")
+	}
 	tc := c02Tree(true)
 	child := gen.ChildCfg{Tree: tc, Edits: r.Range(1, 2), PUseless: 0.02}
 	dir := c03Dir
@@ -334,6 +340,9 @@ func (c *C03Case) buildArgs() {
 	if c.SkipP {
 		c.Args = append(c.Args, "-P")
 	}
+	if c.Verbose == "-v" {
+		c.Args = append(c.Args, "-v")
+	}
 	c.Args = append(c.Args, c.Inputs...)
 }
 
@@ -480,7 +489,14 @@ func c03Invocation(c *C03Case, root string) *procsim.Invocation {
 		args[i] = resolveAbs(root, a)
 	}
 	s := c.Sched
-	return &procsim.Invocation{Kind: "inst", Args: args, Cwd: c.Cwd, Sched: &s, StepBudget: ProcStepBudget, Env: stdEnv}
+	env := stdEnv
+	if c.Verbose == "env" {
+		env = map[string]string{"BKL_DEBUG": "1"}
+		for k, v := range stdEnv {
+			env[k] = v
+		}
+	}
+	return &procsim.Invocation{Kind: "inst", Args: args, Cwd: c.Cwd, Sched: &s, StepBudget: ProcStepBudget, Env: env}
 }
 
 // applyFault damages one layer of the materialised world.
@@ -746,6 +762,12 @@ func c03Candidates(c *C03Case) []*C03Case {
 	if c.Format != "json" {
 		n := clone()
 		n.Format = "json"
+		n.buildArgs()
+		out = append(out, n)
+	}
+	if c.Verbose != "" {
+		n := clone()
+		n.Verbose = ""
 		n.buildArgs()
 		out = append(out, n)
 	}
